@@ -45,10 +45,10 @@ var fnWhitelist = map[string][]string{
 		"Activation.IsService", "Activation.IsStream", "Activation.Validate", "ActivationClaims.validateWithTimeChecks", "ActivationClaims.Validate",
 		"Import.IsService", "Import.IsStream", "Import.GetTo", "Import.Validate", "Imports.Validate",
 		"ServiceLatency.Validate", "Export.IsService", "Export.IsStream", "Export.IsSingleResponse", "Export.IsChunkedResponse", "Export.IsStreamResponse",
-		"Export.Validate", "isContainedIn", "Exports.Validate", "Exports.HasExportContainingSubject", "Mapping.Validate",
+		"Info.Validate", "Export.Validate", "isContainedIn", "Exports.Validate", "Exports.HasExportContainingSubject", "Mapping.Validate",
 		"CreateValidationResults", "ResponsePermission.Validate", "Permissions.Validate",
 		"OperatorLimits.IsEmpty", "OperatorLimits.Validate", "ExternalAuthorization.Validate",
-		"UserScope.Validate", "SigningKeys.Validate", "Account.Validate", "AccountClaims.Validate",
+		"UserScope.Validate", "SigningKeys.Validate", "Account.Validate", "AccountClaims.Validate", "GenericClaims.Validate", "AuthorizationRequestClaims.Validate", "AuthorizationResponseClaims.Validate", "TimeRange.Validate", "Limits.Validate", "User.Validate", "UserClaims.Validate", "ParseServerVersion", "Operator.validateAccountServerURL", "ValidateOperatorServiceURL", "Operator.validateOperatorServiceURLs", "Operator.Validate", "OperatorClaims.Validate",
 	},
 	"V1": {
 		"Subject.HasWildCards", "Subject.IsContainedIn", "cleanSubject",
@@ -84,6 +84,7 @@ type fnGen struct {
 	structs    map[string]*types.Struct
 	order      []string
 	out        strings.Builder
+	needURL    bool // the mirror of net/url.URL is used
 	unsupp     map[string]string
 	opaque     map[string]*types.Func // package functions called but deliberately not translated: fields of `Opq`
 	opqOrd     []string
@@ -120,6 +121,13 @@ func (g *fnGen) leanType(t types.Type) string {
 			return "Bool"
 		}
 		if st, ok := u.Underlying().(*types.Struct); ok {
+			if u.Obj().Pkg() != nil && u.Obj().Pkg().Path() == "net/url" && u.Obj().Name() == "URL" {
+				g.needURL = true
+				return "T_url_URL"
+			}
+			if u.Obj().Pkg() != nil && u.Obj().Pkg().Path() == "net/url" && u.Obj().Name() == "Userinfo" {
+				return "Unit"
+			}
 			if u.Obj().Pkg() != g.p.Types {
 				unsup("foreign struct type %s", u.String())
 			}
@@ -166,12 +174,47 @@ func (g *fnGen) leanType(t types.Type) string {
 	return ""
 }
 
+// terminates: a statement after which control never continues (Go's terminating statements, the part used here)
+func terminates(s ast.Stmt) bool {
+	switch x := s.(type) {
+	case *ast.ReturnStmt:
+		return true
+	case *ast.BlockStmt:
+		return len(x.List) > 0 && terminates(x.List[len(x.List)-1])
+	case *ast.IfStmt:
+		return x.Else != nil && terminates(x.Body) && terminates(x.Else)
+	case *ast.SwitchStmt:
+		hasDefault := false
+		for _, cl := range x.Body.List {
+			cc := cl.(*ast.CaseClause)
+			if cc.List == nil {
+				hasDefault = true
+			}
+			if len(cc.Body) == 0 || !terminates(cc.Body[len(cc.Body)-1]) {
+				return false
+			}
+		}
+		return hasDefault
+	}
+	return false
+}
+
+// leanTypeQuiet: leanType, or "" when the type is outside the subset
+func (g *fnGen) leanTypeQuiet(t types.Type) (r string) {
+	defer func() {
+		if e := recover(); e != nil {
+			r = ""
+		}
+	}()
+	return g.leanType(t)
+}
+
 // nilableElems: slice element types that decoded JSON can make nil (`[]*Export`, `[]*Import`)
 var nilableElems = map[string]bool{"Export": true, "Import": true}
 
 // opaqueFns: package functions that translated code may call but that stay outside the translation (their behaviour
 // is a parameter of the translated caller: a field of the generated structure `Opq`)
-var opaqueFns = map[string]bool{"Info.Validate": true, "DecodeActivationClaims": true, "RenamingSubject.ToSubject": true}
+var opaqueFns = map[string]bool{"DecodeActivationClaims": true, "RenamingSubject.ToSubject": true}
 
 // foreignOpaque: functions of other packages that translated code may call; each becomes a field of `Opq`
 // (name, Lean type of the field, and how a two-value result is read)
@@ -182,7 +225,18 @@ var foreignOpaque = map[string]string{
 	"nkeys.IsValidPublicOperatorKey": "Str → Bool",
 	"nkeys.IsValidPublicServerKey":   "Str → Bool",
 	"nkeys.IsValidPublicCurveKey":    "Str → Bool",
+	"url.Parse":                      "Str → Option T_url_URL", // none = the error result is non-nil (and the *URL is nil)
+	"time.Parse":                     "Str → Str → Bool", // true = the error result is non-nil
+	"time.LoadLocation":              "Str → Bool",       // true = the error result is non-nil
+	"net.ParseCIDR":                  "Str → Bool",       // true = the error result is non-nil (and then, only then, the *IPNet is nil)
 }
+
+// foreignErrOnly: foreign callees of which translated code uses only the error result (and, at most, whether a
+// pointer result is nil, which the library guarantees to be the case exactly when the error is non-nil)
+var foreignErrOnly = map[string]bool{"time.Parse": true, "time.LoadLocation": true, "net.ParseCIDR": true}
+
+// unitPtr: local variables holding a pointer to a foreign struct of which only nil-ness is used (`Option Unit`)
+var unitPtr = map[types.Object]bool{}
 
 func (g *fnGen) foreignCall(call *ast.CallExpr) string {
 	q := selName(call.Fun)
@@ -358,6 +412,9 @@ func (g *fnGen) nilCompared(fd *ast.FuncDecl, params []*types.Var, hasRecv bool)
 
 // varType: Lean type of a variable (nilable pointers are `Option T`)
 func (c *fnCtx) varType(o types.Object) string {
+	if unitPtr[o] {
+		return "(Option Unit)"
+	}
 	lt := c.g.leanType(o.Type())
 	if _, ok := c.g.ifaceOf(o.Type()); ok {
 		return lt // already `Option I_X`
@@ -828,6 +885,9 @@ func (c *fnCtx) selNilable(sel *types.Selection) bool {
 			return false
 		}
 		if k == len(idx)-1 {
+			if n, ok := ptrToStruct(st.Field(i).Type()); ok && n.Obj().Pkg() != nil && n.Obj().Pkg().Path() == "net/url" {
+				return true
+			}
 			return nilableField(st, i)
 		}
 		t = st.Field(i).Type()
@@ -956,6 +1016,19 @@ func (c *fnCtx) binary(x *ast.BinaryExpr) ex {
 				return ex{"(!" + a.s + ")", false}
 			}
 			unsup("comparison with nil of %s", t.String())
+		}
+	}
+	// `s != nil && len(s) > 0` on a slice: the first conjunct is implied by the second
+	if x.Op == token.LAND {
+		if l, ok := x.X.(*ast.BinaryExpr); ok && l.Op == token.NEQ && c.isNilExpr(l.Y) {
+			if _, isSlice := c.typeOf(l.X).Underlying().(*types.Slice); isSlice {
+				if r, ok := x.Y.(*ast.BinaryExpr); ok && r.Op == token.GTR {
+					if call, ok := r.X.(*ast.CallExpr); ok && len(call.Args) == 1 && types.ExprString(call.Fun) == "len" &&
+						types.ExprString(call.Args[0]) == types.ExprString(l.X) && types.ExprString(r.Y) == "0" {
+						return c.expr(x.Y)
+					}
+				}
+			}
 		}
 	}
 	a, b := c.expr(x.X), c.expr(x.Y)
@@ -1166,6 +1239,16 @@ func (c *fnCtx) call(x *ast.CallExpr) ex {
 			return ex{"now", false}
 		}
 		if qual == "fmt.Sprintf" {
+			return ex{"([] : Str)", false} // message text is not modelled
+		}
+		if se.Sel.Name == "Hostname" && len(x.Args) == 0 && c.g.leanTypeQuiet(c.typeOf(se.X)) == "T_url_URL" {
+			a := c.expr(se.X)
+			if a.m {
+				return ex{"(do pure (" + a.bind() + ").m_Hostname)", true}
+			}
+			return ex{a.s + ".m_Hostname", false}
+		}
+		if se.Sel.Name == "Error" && len(x.Args) == 0 && isErrorType(c.typeOf(se.X)) {
 			return ex{"([] : Str)", false} // message text is not modelled
 		}
 		if se.Sel.Name == "Nanoseconds" && len(x.Args) == 0 {
@@ -1840,6 +1923,44 @@ func (c *fnCtx) assign(b *block, x *ast.AssignStmt) {
 			}
 		}
 	}
+	// _, err := time.Parse(f, s)   _, ipNet, err := net.ParseCIDR(s): only the error (and nil-ness of a pointer) is used
+	if len(x.Lhs) >= 2 && len(x.Rhs) == 1 {
+		if call, ok := x.Rhs[0].(*ast.CallExpr); ok {
+			if q := c.g.foreignCall(call); q != "" && foreignErrOnly[q] {
+				var as []string
+				for _, a := range call.Args {
+					as = append(as, c.expr(a).bind())
+				}
+				c.tmpN++
+				tmp := fmt.Sprintf("__f%d", c.tmpN)
+				b.add("let %s := opq.%s %s", tmp, strings.ReplaceAll(q, ".", "_"), strings.Join(as, " "))
+				for i, l := range x.Lhs {
+					if i == len(x.Lhs)-1 {
+						c.store(b, l, tmp)
+						continue
+					}
+					id, ok := l.(*ast.Ident)
+					if !ok {
+						unsup("result of %s stored outside a variable", q)
+					}
+					if id.Name == "_" {
+						continue
+					}
+					o := c.g.p.TypesInfo.Defs[id]
+					if o == nil {
+						unsup("result of %s stored into an existing variable", q)
+					}
+					if _, isPtr := ptrToStruct(o.Type()); !isPtr {
+						unsup("non-pointer result of %s is used", q)
+					}
+					unitPtr[o] = true
+					c.nilVars[o] = true
+					c.assignVar(b, o, "(if "+tmp+" then none else some ())")
+				}
+				return
+			}
+		}
+	}
 	// v, err := strconv.Atoi(s)
 	if len(x.Lhs) == 2 && len(x.Rhs) == 1 {
 		if call, ok := x.Rhs[0].(*ast.CallExpr); ok {
@@ -1848,6 +1969,19 @@ func (c *fnCtx) assign(b *block, x *ast.AssignStmt) {
 				c.tmpN++
 				tmp := fmt.Sprintf("__f%d", c.tmpN)
 				b.add("let %s := opq.%s %s", tmp, strings.ReplaceAll(q, ".", "_"), a.bind())
+				if q == "url.Parse" {
+					c.g.leanType(c.typeOf(x.Lhs[0]))
+					if id, ok := x.Lhs[0].(*ast.Ident); ok && id.Name != "_" {
+						o := c.g.p.TypesInfo.Defs[id]
+						if o == nil {
+							unsup("url.Parse into an existing variable")
+						}
+						c.nilVars[o] = true
+						c.assignVar(b, o, tmp)
+					}
+					c.store(b, x.Lhs[1], tmp+".isNone")
+					return
+				}
 				c.store(b, x.Lhs[0], "("+tmp+".getD (0 : Int))")
 				c.store(b, x.Lhs[1], tmp+".isNone")
 				return
@@ -1869,6 +2003,33 @@ func (c *fnCtx) assign(b *block, x *ast.AssignStmt) {
 			}
 		}
 		unsup("two-value assignment")
+	}
+	// a, b, c := f(args): the results of a translated function that writes through none of its parameters
+	if len(x.Lhs) >= 2 && len(x.Rhs) == 1 {
+		if call, ok := x.Rhs[0].(*ast.CallExpr); ok {
+			if fi := c.g.callee(call); fi != nil && fi.fd != nil && len(fi.results) == len(x.Lhs) {
+				for _, m := range fi.mutated {
+					if m {
+						unsup("multi-result call to a function that writes through a parameter")
+					}
+				}
+				app := c.callFn(call, fi)
+				c.tmpN++
+				tmp := fmt.Sprintf("__r%d", c.tmpN)
+				b.add("let %s ← %s", tmp, app.s)
+				for i, l := range x.Lhs {
+					pr := tmp
+					for j := 0; j < i; j++ {
+						pr += ".2"
+					}
+					if i < len(x.Lhs)-1 {
+						pr += ".1"
+					}
+					c.store(b, l, pr)
+				}
+				return
+			}
+		}
 	}
 	if len(x.Lhs) != len(x.Rhs) {
 		unsup("assignment arity")
@@ -2342,6 +2503,9 @@ func genFns(infos []pkgInfo) (string, string, map[string]string) {
 			}
 			fmt.Fprintf(&out, "  deriving Inhabited, DecidableEq\n\n")
 		}
+		if g.needURL {
+			out.WriteString("/-- what translated code reads of a `*net/url.URL`: three fields (of `User` only whether it is nil) and the\nresult of `Hostname()` -/\nstructure T_url_URL where\n  f_Scheme : Str := ([] : Str)\n  f_Path : Str := ([] : Str)\n  f_User : Option Unit := none\n  m_Hostname : Str := ([] : Str)\n  deriving Inhabited, DecidableEq\n\n")
+		}
 		if len(g.opqOrd)+len(g.foreignOrd) > 0 {
 			out.WriteString("/-- package functions that translated code calls but that are not translated themselves: their behaviour is a\nparameter (tie theorems instantiate it with the model's function) -/\nstructure Opq where\n")
 			for _, k := range g.opqOrd {
@@ -2593,7 +2757,7 @@ func (g *fnGen) emit(fi *fnInfo, emitted map[string]bool) (text string, err stri
 	// falling off the end
 	needTail := true
 	if n := len(fi.fd.Body.List); n > 0 {
-		if _, ok := fi.fd.Body.List[n-1].(*ast.ReturnStmt); ok {
+		if terminates(fi.fd.Body.List[n-1]) {
 			needTail = false
 		}
 	}
